@@ -34,7 +34,7 @@ impl Tier {
 }
 
 pub fn materialize(spec: &str) -> Option<Vec<u8>> {
-    if spec.starts_with("fixture:") || spec.starts_with("regress:") || spec.starts_with("real:") || spec.starts_with("file:") {
+    if spec.starts_with("fixture:") || spec.starts_with("regress:") || spec.starts_with("real:") || spec.starts_with("file:") || spec.starts_with("gcedge:") {
         return corpus::load_disk(spec);
     }
     crate::gen::materialize(spec)
@@ -60,6 +60,8 @@ pub fn cases(prop: &str, tier: Tier, seed: u64) -> Vec<CaseDesc> {
     let g = |profile: &str, n_quick: u64, n_thorough: u64| -> Vec<String> { crate::gen::gen_specs(profile, seed, if q { n_quick } else { n_thorough }) };
     match prop {
         "C02" => {
+            out.extend(with_scenario(crate::census::op_census_specs(), "rt:emit,gc"));
+            out.extend(with_scenario(crate::census::attr_specs(), "rt:emit,gc"));
             out.extend(with_scenario(disk_corpus(false), "rt:emit,gc"));
             for (p, nq, nt) in [("full", 3000, 150_000), ("mvp", 800, 30_000), ("stable", 800, 30_000), ("gcgraph", 1500, 60_000), ("names", 600, 20_000), ("customs", 600, 20_000)] {
                 out.extend(with_scenario(g(p, nq, nt), "rt:emit,gc"));
@@ -220,6 +222,9 @@ pub fn cases(prop: &str, tier: Tier, seed: u64) -> Vec<CaseDesc> {
             out.extend(with_scenario(g("customs", 4000, 150_000), "rt:emit,emit2,gc"));
         }
         "C20" => {
+            // every accepted operator alone in an otherwise MVP module, then the full census
+            out.extend(with_scenario(crate::census::op_alone_specs(), "rt:emit"));
+            out.extend(with_scenario(crate::census::op_census_specs(), "rt:emit"));
             out.extend(with_scenario(disk_corpus(false), "rt:emit"));
             for (p, nq, nt) in [("mvp", 1200, 40_000), ("full", 600, 20_000), ("stable", 400, 20_000)] {
                 out.extend(with_scenario(g(p, nq, nt), "rt:emit"));
@@ -229,18 +234,26 @@ pub fn cases(prop: &str, tier: Tier, seed: u64) -> Vec<CaseDesc> {
             }
         }
         "C03" => {
+            // operator census first: every accepted operator with boundary immediates
+            out.extend(with_scenario(crate::census::op_census_specs(), "rt:emit"));
             out.extend(with_scenario(disk_corpus(false), "rt:emit"));
             for (p, nq, nt) in [("full", 4000, 200_000), ("mvp", 600, 20_000), ("stable", 600, 20_000)] {
                 out.extend(with_scenario(g(p, nq, nt), "rt:emit"));
             }
         }
         "C04" => {
+            out.extend(with_scenario(crate::census::attr_specs(), "rt:emit"));
             out.extend(with_scenario(disk_corpus(false), "rt:emit"));
             for (p, nq, nt) in [("full", 2500, 100_000), ("gcgraph", 1500, 60_000), ("mvp", 500, 20_000), ("customs", 500, 20_000)] {
                 out.extend(with_scenario(g(p, nq, nt), "rt:emit"));
             }
         }
         "C06" | "C07" => {
+            // GC-edge census: module-level edges (hand-written), every instruction operand edge as the only
+            // path (one census function per module), attribute census
+            out.extend(with_scenario(corpus::gcedge_specs(), "rt:gc,gc2"));
+            out.extend(with_scenario(crate::census::gcedge_op_specs(), "rt:gc,gc2"));
+            out.extend(with_scenario(crate::census::attr_specs(), "rt:gc,gc2"));
             out.extend(with_scenario(disk_corpus(false), "rt:gc,gc2"));
             for (p, nq, nt) in [("gcgraph", 3000, 150_000), ("exec", 800, 30_000), ("full", 500, 20_000)] {
                 let specs = g(p, nq, nt);
@@ -252,6 +265,8 @@ pub fn cases(prop: &str, tier: Tier, seed: u64) -> Vec<CaseDesc> {
             }
         }
         "C01" => {
+            out.extend(with_scenario(crate::census::attr_specs(), "rt:emit"));
+            out.extend(with_scenario(corpus::gcedge_specs(), "rt:emit"));
             out.extend(with_scenario(disk_corpus(false), "rt:emit"));
             for (p, nq, nt) in [("exec", 3000, 120_000), ("execmvp", 600, 20_000), ("gcgraph", 600, 20_000)] {
                 out.extend(with_scenario(g(p, nq, nt), "rt:emit"));
